@@ -211,6 +211,97 @@ pub fn emit(out: &mut Out, worker: &mut Worker, text: &str, rng: &mut Rng, thoro
     }
 }
 
+/// "keyword sequence" grammars: a fixed sequence of distinct tokens with optional groups, and inputs
+/// in which one token is replaced by a foreign one and/or neighbours are dropped, so that repairs
+/// need an Insert and a Delete (in either order) and further Inserts
+fn seq_family(rng: &mut Rng) -> (String, Vec<Vec<u32>>) {
+    let n = rng.range(4, 7);
+    let mut tok = 0u32;
+    let mut rhs: Vec<String> = Vec::new();
+    let mut rules = String::new();
+    // sentence with all optional groups empty, as token indices in order of first appearance
+    let mut sent: Vec<u32> = Vec::new();
+    let mut groups = 0;
+    let mut deferred: Vec<(usize, usize)> = Vec::new(); // (group, length)
+    for i in 0..n {
+        if i > 0 && groups < 2 && rng.chance(1, 3) {
+            rhs.push(format!("O{}", groups));
+            deferred.push((groups, rng.range(1, 2)));
+            groups += 1;
+        }
+        rhs.push(format!("'k{}'", tok));
+        sent.push(tok);
+        tok += 1;
+    }
+    // a repeated tail so that three shifts after a repair are available
+    let rep = rng.range(0, 3);
+    for _ in 0..rep {
+        rhs.push(format!("'k{}'", tok - 1));
+        sent.push(tok - 1);
+    }
+    let mut text = format!("%start S\n%%\nS: {};\n", rhs.join(" "));
+    let mut foreign: Vec<u32> = Vec::new();
+    for (gi, len) in deferred {
+        let mut body = Vec::new();
+        for _ in 0..len {
+            body.push(format!("'k{}'", tok));
+            foreign.push(tok);
+            tok += 1;
+        }
+        if rng.chance(1, 2) {
+            rules.push_str(&format!("O{}: | {};\n", gi, body.join(" ")));
+        } else {
+            rules.push_str(&format!("O{}: {} | ;\n", gi, body.join(" ")));
+        }
+    }
+    text.push_str(&rules);
+    // token numbering is by first appearance: S's tokens first (k0..), then the groups' — as generated
+    let mut inputs = Vec::new();
+    let pool: Vec<u32> = if foreign.is_empty() { sent.clone() } else { foreign.clone() };
+    for i in 0..sent.len() {
+        let f = pool[rng.below(pool.len())];
+        // replace s[i], drop s[i+1]
+        let mut w = sent[..i].to_vec();
+        w.push(f);
+        if i + 2 <= sent.len() {
+            w.extend_from_slice(&sent[i + 2..]);
+        }
+        inputs.push(w);
+        // replace s[i] only
+        let mut w2 = sent.clone();
+        w2[i] = f;
+        inputs.push(w2);
+        // insert a foreign token and drop the next
+        let mut w3 = sent[..i].to_vec();
+        w3.push(f);
+        w3.extend_from_slice(&sent[(i + 1).min(sent.len())..]);
+        inputs.push(w3);
+    }
+    inputs.truncate(14);
+    (text, inputs)
+}
+
+/// inputs with a long error-free tail (beyond the ranking window of the recoverer)
+fn long_tail_cases() -> Vec<(&'static str, Vec<Vec<u32>>)> {
+    // tokens by first appearance: '+' 0, '*' 1, '(' 2, ')' 3, 'n' 4
+    let mut w = vec![2u32, 0, 4];
+    for _ in 0..300 {
+        w.extend([0, 4]);
+    }
+    w.push(3);
+    let mut w2 = vec![4u32, 0, 0, 4];
+    for _ in 0..270 {
+        w2.extend([1, 4]);
+    }
+    // list grammar: 'x' 0, 'y' 1
+    let mut l = vec![1u32, 1];
+    l.extend(std::iter::repeat(0).take(280));
+    vec![
+        ("%start E\n%%\nE: E '+' T | T; T: T '*' F | F; F: '(' E ')' | 'n';", vec![w, w2]),
+        ("%start L\n%%\nL: L 'x' | 'y';", vec![l]),
+    ]
+}
+
 pub fn run_prop(a: &Args, prop: &str, pnum: u64) {
     let mut out = Out::new(&a.out);
     let mut worker = Worker::new();
@@ -255,6 +346,17 @@ pub fn run_prop(a: &Args, prop: &str, pnum: u64) {
         emit(&mut out, &mut worker, "%start R0\n%%\nR0: R0 't0' | 't2' 't1';", &mut rng, a.thorough, "witness", prop, Some((w1, 1)), None);
         let w2: &[&[u32]] = &[&[2, 2, 2, 2], &[2, 2, 2], &[2, 2, 2, 2, 0]];
         emit(&mut out, &mut worker, "%start R0\n%%\nR0: R0 't0' | R0 't2' | 't1' 't1' R1; R1: R0 't1' 't0' | R1 't0' | 't1';", &mut rng, a.thorough, "witness", prop, Some((w2, 1)), None);
+        // a Delete-ended and an Insert-ended search node reach the same stack and position
+        let w3: &[&[u32]] = &[&[0, 5, 3, 3, 3], &[0, 5, 3, 3], &[0, 5]];
+        emit(&mut out, &mut worker, "%start S\n%%\nS: 'a' M 't' 'w' 'k' 'k' 'k'; M: | 'u' 'y';", &mut rng, a.thorough, "witness", prop, Some((w3, 1)), None);
+        emit(&mut out, &mut worker, "%start S\n%%\nS: 'a' M 't' 'w' 'k' 'k' 'k'; M: 'u' 'y' | ;", &mut rng, a.thorough, "witness", prop, Some((w3, 1)), None);
+    }
+    if a.shard == 1 % a.shards {
+        let mut rng = Rng::for_case(a.seed, pnum, 0);
+        for (t, ws) in long_tail_cases() {
+            let refs: Vec<&[u32]> = ws.iter().map(|w| &w[..]).collect();
+            emit(&mut out, &mut worker, t, &mut rng, a.thorough, "long_tail", prop, Some((&refs, 1)), None);
+        }
     }
     let n = if a.thorough { 2500 } else { 160 };
     for case in 0..n {
@@ -262,6 +364,12 @@ pub fn run_prop(a: &Args, prop: &str, pnum: u64) {
             continue;
         }
         let mut rng = Rng::for_case(a.seed, pnum, case as u64 + 1);
+        if case % 4 == 1 {
+            let (t, ws) = seq_family(&mut rng);
+            let refs: Vec<&[u32]> = ws.iter().map(|w| &w[..]).collect();
+            emit(&mut out, &mut worker, &t, &mut rng, a.thorough, "seq_family", prop, Some((&refs, 1)), None);
+            continue;
+        }
         let cfg = GenCfg { precs: false, ..GenCfg::default() };
         let mut g = grammar::random_grammar(&mut rng, &cfg);
         if rng.chance(1, 3) {
